@@ -26,7 +26,7 @@ SPECS = {
                     values_of(records@, it__.seq()),
                     it__.index@ == it__.seq().len() ==> any_answer_ok(rrs@, records@, *name),""",
             "entry": "let ghost before__ = rrs@; let ghost idx = it__.index@ as int;"}},
-        "anchors": [{"after": "rrs.append(&mut zrs.iter().map(|zr| zr.to_rr(name)).collect());", "proof": """proof {
+        "anchors": [{"after_re": r"rrs\.append\(&mut zrs\.iter\(\)\.map\(\|zr\| zr\.to_rr\(\w+\)\)\.collect\(\)\);", "proof": """proof {
     let add = rrs_of(zrs@, *name);
     assert(rrs@ =~= before__ + add);
     assert forall|j: int, i: int| 0 <= j < idx + 1 && 0 <= i < it__.seq()[j]@.len() implies rrs@.contains(to_rr_spec(#[trigger] it__.seq()[j]@[i], *name)) by {
